@@ -90,7 +90,7 @@ Prepare(f, n) ==
 
 Execute(f, n) ==
   LET s == f.stmt
-      reply == IF s = "select" THEN ExecReply(ext[n], ver, s \in prep[n], f.rmid, f.skip)
+      reply == IF s = "select" THEN ExecReply(ext[n], ver, s \in prep[n], f.rmid, f.eskip)     \* eskip: the flag as the node honours it (0 on nodes that ignore it)
                ELSE IF s \in prep[n] THEN "void" ELSE "unprepared"
       firstOfOp == op.ne = 0
       hd == op.hd IN
